@@ -17,7 +17,7 @@ type PropSpec struct {
 var properties = map[string]PropSpec{
 	"C19": {
 		Level: "other",
-		Explanation: "Explicitly narrow: necessary conditions of C19 only. MOVE: implode stores through the header exactly twice per step - the gap receives a non-nil value loaded from a later slot of the same stack (source slot = destination slot + a count proved >= 0) and exactly that source slot is then cleared - and stores no header: compaction moves existing values forward and fabricates, duplicates or drops nothing by itself. SCAN: implode's loop can be left only when the scan limit is reached (max <= count) or the slot about to be examined lies beyond the content (ulen <= start+count), by linear entailment at every exit - the last slot is examined too. GAP: defrag compacts, records an error and truncates only on paths where a nil element was found below the scan limit; a stack without nil elements is untouched. ERR: the error recorded is verifyImplode's own verdict and the header is truncated only under a nil verdict, after the compaction. NEST: Stack.Defrag consults IsNesting on every path on which the receiver was defragmented, visits elements 0..Len-1 in order and hands nested Stacks - direct elements or a Condition's expression, through both alias converters - the same scan limit. MAX: the scan limit is positive (50 unless a positive one is given). Index and slice ranges of defrag/implode/verifyImplode are C08's obligations (one of them, the truncation index, is the recorded assumption). What Defrag relies on is checked as well: stack.index's found flag means exactly 'the slot is not nil' (R-SEQ), IsNesting is truthful and uncached (R-SCAN, R-TT), and calculateDefragMax returns a positive request as given (no ceiling). The verdict of verifyImplode is recorded on every path that verified (a nil verdict clears an older error); isStackKind judges by the pointer-flattened type at any depth (R-TT). R-MASK/R-FLAGS: the index options the scan honours and the read-only bit stay off when switched off. Condition.Expression answers the stored expression on every path of an initialised instance (a recorded error does not hide a nested Stack from Defrag). Shared option helpers, checked in every property whose statement depends on an option: the bit helpers are exact |= / &^= / test (R-MASK), the option constants are distinct single bits (R-FLAGS), and the tests every option read goes through - (*nodeConfig).valid and getState - depend on the kind word and the raw bit only (R-TT). Shared conversion helpers, checked in every property that recognises nested Stacks/Conditions: derefPtr follows pointers to the end, only while non-nil, type and value together (R-COVER), isStackKind judges by the pointer-flattened type (R-TT), and the converters write no package-level state (R-CONV: no memo keyed by type). R-DEFRAG: verifyImplode turns positions into map keys with strconv.Itoa only (distinct keys for distinct positions). R-CONV: the converters keep no package-level state (no memo keyed by type that a nil pointer could poison).",
+		Explanation: "Explicitly narrow: necessary conditions of C19 only. MOVE: implode stores through the header exactly twice per step - the gap receives a non-nil value loaded from a later slot of the same stack (source slot = destination slot + a count proved >= 0) and exactly that source slot is then cleared - and stores no header: compaction moves existing values forward and fabricates, duplicates or drops nothing by itself. SCAN: implode's loop can be left only when the scan limit is reached (max <= count) or the slot about to be examined lies beyond the content (ulen <= start+count), by linear entailment at every exit - the last slot is examined too. GAP: defrag compacts, records an error and truncates only on paths where a nil element was found below the scan limit; a stack without nil elements is untouched. ERR: the error recorded is verifyImplode's own verdict and the header is truncated only under a nil verdict, after the compaction. NEST: Stack.Defrag consults IsNesting on every path on which the receiver was defragmented, visits elements 0..Len-1 in order and hands nested Stacks - direct elements or a Condition's expression, through both alias converters - the same scan limit. MAX: the scan limit is positive (50 unless a positive one is given). Index and slice ranges of defrag/implode/verifyImplode are C08's obligations (one of them, the truncation index, is the recorded assumption). What Defrag relies on is checked as well: stack.index's found flag means exactly 'the slot is not nil' (R-SEQ), IsNesting is truthful and uncached (R-SCAN, R-TT), and calculateDefragMax returns a positive request as given (no ceiling). The verdict of verifyImplode is recorded on every path that verified (a nil verdict clears an older error); isStackKind judges by the pointer-flattened type at any depth (R-TT). R-MASK/R-FLAGS: the index options the scan honours and the read-only bit stay off when switched off. Condition.Expression answers the stored expression on every path of an initialised instance (a recorded error does not hide a nested Stack from Defrag). Shared option helpers, checked in every property whose statement depends on an option: the bit helpers are exact |= / &^= / test (R-MASK), the option constants are distinct single bits (R-FLAGS), and the tests every option read goes through - (*nodeConfig).valid and getState - depend on the kind word and the raw bit only (R-TT). Shared conversion helpers, checked in every property that recognises nested Stacks/Conditions: derefPtr follows pointers to the end, only while non-nil, type and value together (R-COVER), isStackKind judges by the pointer-flattened type (R-TT), and the converters write no package-level state (R-CONV: no memo keyed by type). R-DEFRAG: verifyImplode turns positions into map keys with strconv.Itoa only (distinct keys for distinct positions). R-CONV: the converters keep no package-level state (no memo keyed by type that a nil pointer could poison). R-DEFRAG: the transitive write set of Defrag is content, the error record and lock bookkeeping - no flag of its own in a configuration record that could outlive the call and make a later Defrag skip the stack.",
 		NotDecided: "THE CORE OF C19 IS NOT DECIDED: that the result holds exactly the former non-nil elements in order, that Len equals their count and that Err() is nil. The truncation index and the verdict come from verifyImplode's pattern bookkeeping (a map filled in the same loop), a functional property of data out of reach of these domains. The pinned tree is in fact known - from an exhaustive run over all nil patterns of length <= 8 made by an independent test agent, not from this check - to violate the core for most patterns (e.g. Push(\"x\",nil,\"y\").Defrag() leaves [x y nil]; Push(nil,nil,nil,nil,4).Defrag() loses 4); the pinned test TestDefrag_experimental_001 hard-codes the resulting (wrong) length, so no repair can keep the unedited suite passing and none was made. This check neither reports nor masks that defect.",
 		Run: func(c *Ctx) {
 			c.optionHelpers()
@@ -34,12 +34,13 @@ var properties = map[string]PropSpec{
 			c.ruleFlagsDistinct()
 			c.ruleCondGetters() // a Condition's nested Stack is reached through Expression(), which answers the stored value
 			c.ruleDefragKeys()  // the position bookkeeping of verifyImplode uses distinct keys (strconv.Itoa)
+			c.ruleDefragWrites() // Defrag keeps no state of its own in a configuration record
 			c.rep.floor("R-DEFRAG", 4)
 		},
 	},
 	"C02": {
 		Level: "other",
-		Explanation: "Structural clauses of the String() grammar, each a necessary condition whose violation changes the rendering. NOT: in the Stack branch of defaultAssertionHandler every stack-level reading (kind, symbol, rendering) is made on the nested, converted Stack - never on the enclosing one; the NOT word is prefixed only on paths where the nested kind is NOT, it has no symbol and its rendering is non-empty (an empty nested stack contributes nothing: no dangling operator), and the word is exactly the one typ() of the nested stack returned, i.e. in the NOT stack's own case. EMPTY: stack.string collects renderings only by append(list, val) under len(val) > 0 for the very value defaultAssertionHandler returned for slot i (i = 1, 2, ... in stored order) and hands exactly that list to the assembler, so BASIC stacks, empty stacks and invalid Conditions (which render to the empty string) leave no dangling operator or delimiter. UTF8: condenseWHSP ranges over runes, writes every rune except blank (32) and tab (9) unchanged, writes one blank only for a blank or tab and uses no Unicode class test - leaf text of any script is reproduced verbatim. ENCAP: encapValue walks the pair list from the last pair to the first and wraps the value built so far as L+v+R or c+v+c, so the first configured pair ends up outermost; Condition expressions pass through it on every rendering path (R-ENCAP in C06). PAREN: stack.paren wraps exactly when the parenthetical bit is set and the kind is not BASIC (table over both atoms), with the same padding left and right. INVALID: the unguarded Condition renderer condition.string is called, anywhere in the package, only where Valid() of that very Condition has just returned nil. LEAF: in defaultAssertionHandler the text of a leaf (own String method, primitive stringer) goes to the enclosing stack's encapv and from there to padValue and the result, nothing in between; encapv hands its argument and the receiver's own pair list to encapValue; encapValue returns the bare argument only when no pair is configured (the empty string is wrapped like any other text). JOIN: a small symbolic string evaluator (constants, concatenation, path-bound phis, padValue - whose own table is checked first) computes the separator handed to join on every path of assembleStringStack and compares it with the table: word operator -> blank(s) word blank(s); symbol -> blank(s) symbol blank(s), or the bare symbol under no-padding; LIST -> the delimiter when one is set, otherwise blanks only; all five rows must reach a join. LEADONCE: the leading operator of lead-once mode is written only where at least one element rendering follows (an empty stack contributes no dangling operator). Rendering is gated by canString (valid and kind not BASIC) and the presentation policy dispatch (C14); option polarity of the getters is C18. VERBATIM: the getters the rendering code uses for the symbol and the LIST delimiter return the stored configuration field itself (nothing is applied on the way), and stack.typ hands a configured symbol on untouched - case folding applies to operator words only. OPERATOR: the operator text stack.string hands to the assembler is typ()'s text, between blanks exactly when padding is on and no symbol is set. NUMBER: a float/complex leaf is formatted at the width of its own type (FormatFloat(float64(x),..,32) for a float32). R-PURE (the effect analysis of C11 on every query): rendering reads and never writes - no memo, cache or scratch buffer in shared state - so the text is a function of the current tree and options, not of earlier calls. NOBYPASS: encapv returns encapValue's result or nothing, a wrapping helper inside encapValue must be left+v+right on every path, and assembleStringStack returns condenseWHSP(paren(...)) on every path - no rendering escapes encapsulation or the condensation of blanks. NUMBER: nothing in the primitive stringers converts an unsigned integer to a signed one. FOLD: foldValue returns the bare word only with folding off or for the empty word; with folding on every non-empty word, of any length (OR as well as AND), is strings.ToUpper/ToLower of itself. A leaf's String method is looked up on reflect.ValueOf of the value as given (pointer-receiver stringers and pointers to zero values are found). R-MASK/R-FLAGS: the presentation options are switched by exact |= / &^= of one distinct bit, so an option switched off while already off stays off. Shared option helpers, checked in every property whose statement depends on an option: the bit helpers are exact |= / &^= / test (R-MASK), the option constants are distinct single bits (R-FLAGS), and the tests every option read goes through - (*nodeConfig).valid and getState - depend on the kind word and the raw bit only (R-TT). Shared conversion helpers, checked in every property that recognises nested Stacks/Conditions: derefPtr follows pointers to the end, only while non-nil, type and value together (R-COVER), isStackKind judges by the pointer-flattened type (R-TT), and the converters write no package-level state (R-CONV: no memo keyed by type). NUMBER: every result of intStringer/uintStringer/floatStringer/complexStringer is a strconv.Format* result (no hand-made digits, no shortcut for small values). NOBYPASS: condenseWHSP returns the text its rune loop built on every path. R-TT: isStringPrimitive/isBoolPrimitive answer the type test and nothing else (the empty string is a string).",
+		Explanation: "Structural clauses of the String() grammar, each a necessary condition whose violation changes the rendering. NOT: in the Stack branch of defaultAssertionHandler every stack-level reading (kind, symbol, rendering) is made on the nested, converted Stack - never on the enclosing one; the NOT word is prefixed only on paths where the nested kind is NOT, it has no symbol and its rendering is non-empty (an empty nested stack contributes nothing: no dangling operator), and the word is exactly the one typ() of the nested stack returned, i.e. in the NOT stack's own case. EMPTY: stack.string collects renderings only by append(list, val) under len(val) > 0 for the very value defaultAssertionHandler returned for slot i (i = 1, 2, ... in stored order) and hands exactly that list to the assembler, so BASIC stacks, empty stacks and invalid Conditions (which render to the empty string) leave no dangling operator or delimiter. UTF8: condenseWHSP ranges over runes, writes every rune except blank (32) and tab (9) unchanged, writes one blank only for a blank or tab and uses no Unicode class test - leaf text of any script is reproduced verbatim. ENCAP: encapValue walks the pair list from the last pair to the first and wraps the value built so far as L+v+R or c+v+c, so the first configured pair ends up outermost; Condition expressions pass through it on every rendering path (R-ENCAP in C06). PAREN: stack.paren wraps exactly when the parenthetical bit is set and the kind is not BASIC (table over both atoms), with the same padding left and right. INVALID: the unguarded Condition renderer condition.string is called, anywhere in the package, only where Valid() of that very Condition has just returned nil. LEAF: in defaultAssertionHandler the text of a leaf (own String method, primitive stringer) goes to the enclosing stack's encapv and from there to padValue and the result, nothing in between; encapv hands its argument and the receiver's own pair list to encapValue; encapValue returns the bare argument only when no pair is configured (the empty string is wrapped like any other text). JOIN: a small symbolic string evaluator (constants, concatenation, path-bound phis, padValue - whose own table is checked first) computes the separator handed to join on every path of assembleStringStack and compares it with the table: word operator -> blank(s) word blank(s); symbol -> blank(s) symbol blank(s), or the bare symbol under no-padding; LIST -> the delimiter when one is set, otherwise blanks only; all five rows must reach a join. LEADONCE: the leading operator of lead-once mode is written only where at least one element rendering follows (an empty stack contributes no dangling operator). Rendering is gated by canString (valid and kind not BASIC) and the presentation policy dispatch (C14); option polarity of the getters is C18. VERBATIM: the getters the rendering code uses for the symbol and the LIST delimiter return the stored configuration field itself (nothing is applied on the way), and stack.typ hands a configured symbol on untouched - case folding applies to operator words only. OPERATOR: the operator text stack.string hands to the assembler is typ()'s text, between blanks exactly when padding is on and no symbol is set. NUMBER: a float/complex leaf is formatted at the width of its own type (FormatFloat(float64(x),..,32) for a float32). R-PURE (the effect analysis of C11 on every query): rendering reads and never writes - no memo, cache or scratch buffer in shared state - so the text is a function of the current tree and options, not of earlier calls. NOBYPASS: encapv returns encapValue's result or nothing, a wrapping helper inside encapValue must be left+v+right on every path, and assembleStringStack returns condenseWHSP(paren(...)) on every path - no rendering escapes encapsulation or the condensation of blanks. NUMBER: nothing in the primitive stringers converts an unsigned integer to a signed one. FOLD: foldValue returns the bare word only with folding off or for the empty word; with folding on every non-empty word, of any length (OR as well as AND), is strings.ToUpper/ToLower of itself. A leaf's String method is looked up on reflect.ValueOf of the value as given (pointer-receiver stringers and pointers to zero values are found). R-MASK/R-FLAGS: the presentation options are switched by exact |= / &^= of one distinct bit, so an option switched off while already off stays off. Shared option helpers, checked in every property whose statement depends on an option: the bit helpers are exact |= / &^= / test (R-MASK), the option constants are distinct single bits (R-FLAGS), and the tests every option read goes through - (*nodeConfig).valid and getState - depend on the kind word and the raw bit only (R-TT). Shared conversion helpers, checked in every property that recognises nested Stacks/Conditions: derefPtr follows pointers to the end, only while non-nil, type and value together (R-COVER), isStackKind judges by the pointer-flattened type (R-TT), and the converters write no package-level state (R-CONV: no memo keyed by type). NUMBER: every result of intStringer/uintStringer/floatStringer/complexStringer is a strconv.Format* result (no hand-made digits, no shortcut for small values). NOBYPASS: condenseWHSP returns the text its rune loop built on every path. R-TT: isStringPrimitive/isBoolPrimitive answer the type test and nothing else (the empty string is a string). The operator text a Condition element renders is one of six pairwise different constants (String() evaluated over the constants). R-KINDGUARD: a symbol given in pieces is collected by 'accumulator + piece' only, so it is stored and rendered whole.",
 		NotDecided: "equality of the produced string with the canonical rendering over trees x option combinations as a whole (lead-once layout, fold, the outer padding and its condensation): string-valued functional correctness, out of reach of a static argument here.",
 		Run: func(c *Ctx) {
 			c.optionHelpers()
@@ -51,6 +52,8 @@ var properties = map[string]PropSpec{
 			c.ruleFoldTable()      // case folding applies to every non-empty operator word, whatever its length
 			c.ruleNumberStringers() // number text comes from strconv only; the condenser returns what its rune loop built
 			c.ttPrimitiveTests()    // "is a string" is the type test and nothing else (the empty string is a string)
+			c.ruleOperatorTexts()   // a Condition element renders one of six different operator texts (<= is not <)
+			c.ruleSymbolPieces()    // a symbol given in pieces is stored (and rendered) whole
 			c.ruleStringerLookup() // a leaf's String method is looked up on the value as given
 			c.ruleMask()           // an option switched off stays off (presentation options drive the rendering)
 			c.ruleFlagsDistinct()
@@ -349,7 +352,7 @@ var properties = map[string]PropSpec{
 	},
 	"C08": {
 		Level: "other",
-		Explanation: "The panic-site census of the whole package, for every argument value. R-BND: every index, slice and string-index expression (about 110 non-trivial sites) is proved in range on every path by linear entailment (Fourier-Motzkin) from the path's branch facts; user integers are unconstrained 64-bit values and a sum/difference/product is related to its operands only when the facts prove it cannot overflow (so MinInt/MaxInt are covered); loop counters get inductive bounds; helper functions returning lengths are inlined by return case; preconditions of unexported workers are checked at every call site and exported entry points may have none; element writes and user-element reads on a stack need index >= 1, so the configuration slot can never be written or returned through an index. R-NIL / R-REFL / R-CANIF: every nil-dereference and every panicking reflect.Value call is discharged likewise (typed nil pointers of any depth, zero Stacks/Conditions, zero reflect.Values, unexported struct fields). R-TA: every unchecked type assertion is dominated by the matching type test. R-DIV: no division by a possibly-zero integer. A method is looked up on a reflect.Value only where it tested non-zero/non-nil (calling a value-receiver method bound to a nil pointer panics). No explicit panic and no goroutine exist (R-BASE). R-SEQ (the sequence specifications of C01, restricted to the index-taking operations insert, replace, swap, remove and the position translation of stack.index): for every int argument the header left behind is the header found with exactly the prescribed change, a failing index stores nothing and reports failure, and the configuration record never ends up in a user slot. R-NILPTR: a method of the package's own interfaces (Operator, Interface) is invoked on a user-supplied value only where an in-package nil-pointer predicate said no about it, or on the operator stored in a Condition: a nil *Stack / *Condition / *ComparisonOperator among the values never has a method called through it. R-LEVEL/R-TRAV (from C07): Traverse gives up only for the reasons the lookup gives; no test of its own on a path element can ignore the negative/forward index options. R-LOCK pairing and re-entrancy over the whole package: a call that fails (an index addressing nothing) never returns with the stack's lock held, and no method locks a stack it already holds - the stack stays usable. R-MASK/R-FLAGS: the negative/forward index options are switched by exact |= / &^= of one distinct bit (a redundant 'off' cannot switch them on). Shared option helpers, checked in every property whose statement depends on an option: the bit helpers are exact |= / &^= / test (R-MASK), the option constants are distinct single bits (R-FLAGS), and the tests every option read goes through - (*nodeConfig).valid and getState - depend on the kind word and the raw bit only (R-TT). R-SEQ on stack.index now also proves that, with the option on, a negative index is refused only below -Len (every -k with 1 <= k <= Len addresses an element) and an oversize one never.",
+		Explanation: "The panic-site census of the whole package, for every argument value. R-BND: every index, slice and string-index expression (about 110 non-trivial sites) is proved in range on every path by linear entailment (Fourier-Motzkin) from the path's branch facts; user integers are unconstrained 64-bit values and a sum/difference/product is related to its operands only when the facts prove it cannot overflow (so MinInt/MaxInt are covered); loop counters get inductive bounds; helper functions returning lengths are inlined by return case; preconditions of unexported workers are checked at every call site and exported entry points may have none; element writes and user-element reads on a stack need index >= 1, so the configuration slot can never be written or returned through an index. R-NIL / R-REFL / R-CANIF: every nil-dereference and every panicking reflect.Value call is discharged likewise (typed nil pointers of any depth, zero Stacks/Conditions, zero reflect.Values, unexported struct fields). R-TA: every unchecked type assertion is dominated by the matching type test. R-DIV: no division by a possibly-zero integer. A method is looked up on a reflect.Value only where it tested non-zero/non-nil (calling a value-receiver method bound to a nil pointer panics). No explicit panic and no goroutine exist (R-BASE). R-SEQ (the sequence specifications of C01, restricted to the index-taking operations insert, replace, swap, remove and the position translation of stack.index): for every int argument the header left behind is the header found with exactly the prescribed change, a failing index stores nothing and reports failure, and the configuration record never ends up in a user slot. R-NILPTR: a method of the package's own interfaces (Operator, Interface) is invoked on a user-supplied value only where an in-package nil-pointer predicate said no about it, or on the operator stored in a Condition: a nil *Stack / *Condition / *ComparisonOperator among the values never has a method called through it. R-LEVEL/R-TRAV (from C07): Traverse gives up only for the reasons the lookup gives; no test of its own on a path element can ignore the negative/forward index options. R-LOCK pairing and re-entrancy over the whole package: a call that fails (an index addressing nothing) never returns with the stack's lock held, and no method locks a stack it already holds - the stack stays usable. R-MASK/R-FLAGS: the negative/forward index options are switched by exact |= / &^= of one distinct bit (a redundant 'off' cannot switch them on). Shared option helpers, checked in every property whose statement depends on an option: the bit helpers are exact |= / &^= / test (R-MASK), the option constants are distinct single bits (R-FLAGS), and the tests every option read goes through - (*nodeConfig).valid and getState - depend on the kind word and the raw bit only (R-TT). R-SEQ on stack.index now also proves that, with the option on, a negative index is refused only below -Len (every -k with 1 <= k <= Len addresses an element) and an oversize one never. R-REFL: slicesEqual indexes its operands only where their lengths were compared equal (two arrays need not have the same type). R-XFER (from C15): a transfer into itself is refused however the destination is spelled - otherwise the source grows while it is read and the call does not return.",
 		NotDecided: "that -k addresses exactly the k-th element from the end is decided as the position translation row of stack.index plus the linear identity proved for factorNegIndex's result range; Traverse's failure behaviour is decided only through the bounds/nil obligations; panics inside user closures/String() methods and the Go runtime are excluded. One site is assumed (Defrag's truncation index, see assumptions).",
 		Run: func(c *Ctx) {
 			c.optionHelpers()
@@ -372,6 +375,8 @@ var properties = map[string]PropSpec{
 			c.ruleLockReentry("R-LOCK", c.p.Funcs)  // ... and no call locks a stack it already holds
 			c.ruleTraverse() // Traverse gives up only for the reasons Index would: the lookup (which honours the index options) decides
 			c.ruleMask() // the index options are switched by exact |= / &^=: a redundant "off" leaves negative/forward indices off
+			c.ruleSliceLenBeforeIndex() // slice/array leaves are indexed only after their lengths compared equal
+			c.ruleXfer()                // a transfer into itself is refused however the destination is spelled (the source would grow while it is read: the call would not return)
 			c.ruleFlagsDistinct()
 			c.rep.floor("R-SEQ", 5)
 			c.rep.floor("R-BND", 80)
@@ -382,7 +387,7 @@ var properties = map[string]PropSpec{
 	},
 	"C06": {
 		Level: "other",
-		Explanation: "Decides the clauses of C06 that are visible in the shape of the code. (1) R-TT: the return paths of Condition.Valid are enumerated exactly and compared, row by row, with the table the property states (nil iff keyword non-empty, operator present - a built-in one within 1..6 - and expression non-nil; an installed validity closure decides instead); the same for the expression filter (defaultAssertionExpressionHandler / assertConditionExpressionValue: empty string, nil, Stack under no-nesting, pending error are refused) and for condition.string (parentheses iff requested, padding iff not disabled). (2) R-CONDSTORE: keyword/operator/expression are written only by their setters and only after the acceptance test (operator: non-nil, not a nil pointer wrapped in the interface - no method of the offered operator is invoked before an in-package predicate, itself checked to return reflect's IsNil() for every pointer, has said no - with non-empty Context() and String(); expression: the value the filter returned with ok==true), so a rejected argument leaves the previous value; Cond records Valid()'s verdict via SetErr; Condition.String renders only when Valid()==nil and returns \"\" otherwise. (3) R-NIL/R-REFL restricted to everything reachable from Cond, Init and the setters/getters: no call panics on nil, empty or wrongly typed arguments. R-IFACECMP: nowhere in the package are two non-nil interface values compared with == / != (that panics for an uncomparable dynamic type such as a slice-based user Operator), except the confirmed sites on reflect.Type values, library sentinels and operands whose kind was just tested. R-NILPTR: a method of the package's own interfaces (Operator, Interface) is invoked on a user-supplied value only where an in-package nil-pointer predicate said no about it, or on the operator stored in a Condition: a nil *Stack / *Condition / *ComparisonOperator among the values never has a method called through it. R-TT on setState (both types): the option switches the statement quantifies over set on true, clear on false and toggle on no argument. Each private setter's write set is exactly its own component (a refused argument has no other effect, e.g. no error recorded that would block later arguments). R-HANDLE: Init replaces the instance on every return path. The keyword is stored only where the argument was recognised (the asserted string, its own String() text, or a helper's first result under a true ok flag), so a wrongly typed argument cannot wipe it; the constructor records no error ahead of the expression; the encapsulation loop of C02 (every wrap is left+v+right, no 'already wrapped' shortcut) is checked here too. ComparisonOperator.Context answers one non-empty constant on every path, so a built-in operator is never refused for its number (an out-of-range one is stored and then reported by Valid). getStringer looks the String method up on the value as given. Keyword/Operator/Expression answer the stored component on every path of an initialised instance, whatever else is on record. R-ENCDUP (from C18): an encapsulation entry is refused only for an exact duplicate. Shared option helpers, checked in every property whose statement depends on an option: the bit helpers are exact |= / &^= / test (R-MASK), the option constants are distinct single bits (R-FLAGS), and the tests every option read goes through - (*nodeConfig).valid and getState - depend on the kind word and the raw bit only (R-TT). Shared conversion helpers, checked in every property that recognises nested Stacks/Conditions: derefPtr follows pointers to the end, only while non-nil, type and value together (R-COVER), isStackKind judges by the pointer-flattened type (R-TT), and the converters write no package-level state (R-CONV: no memo keyed by type). isNilPtr says yes only where Kind()==Ptr and IsNil() (a nil map/slice/func used as an operator is a usable value). R-ENCDUP: once a duplicate was found no further comparison is made (a later one could overwrite the verdict). The operator text is one of six pairwise different, non-empty constants (String() evaluated over the six constants).",
+		Explanation: "Decides the clauses of C06 that are visible in the shape of the code. (1) R-TT: the return paths of Condition.Valid are enumerated exactly and compared, row by row, with the table the property states (nil iff keyword non-empty, operator present - a built-in one within 1..6 - and expression non-nil; an installed validity closure decides instead); the same for the expression filter (defaultAssertionExpressionHandler / assertConditionExpressionValue: empty string, nil, Stack under no-nesting, pending error are refused) and for condition.string (parentheses iff requested, padding iff not disabled). (2) R-CONDSTORE: keyword/operator/expression are written only by their setters and only after the acceptance test (operator: non-nil, not a nil pointer wrapped in the interface - no method of the offered operator is invoked before an in-package predicate, itself checked to return reflect's IsNil() for every pointer, has said no - with non-empty Context() and String(); expression: the value the filter returned with ok==true), so a rejected argument leaves the previous value; Cond records Valid()'s verdict via SetErr; Condition.String renders only when Valid()==nil and returns \"\" otherwise. (3) R-NIL/R-REFL restricted to everything reachable from Cond, Init and the setters/getters: no call panics on nil, empty or wrongly typed arguments. R-IFACECMP: nowhere in the package are two non-nil interface values compared with == / != (that panics for an uncomparable dynamic type such as a slice-based user Operator), except the confirmed sites on reflect.Type values, library sentinels and operands whose kind was just tested. R-NILPTR: a method of the package's own interfaces (Operator, Interface) is invoked on a user-supplied value only where an in-package nil-pointer predicate said no about it, or on the operator stored in a Condition: a nil *Stack / *Condition / *ComparisonOperator among the values never has a method called through it. R-TT on setState (both types): the option switches the statement quantifies over set on true, clear on false and toggle on no argument. Each private setter's write set is exactly its own component (a refused argument has no other effect, e.g. no error recorded that would block later arguments). R-HANDLE: Init replaces the instance on every return path. The keyword is stored only where the argument was recognised (the asserted string, its own String() text, or a helper's first result under a true ok flag), so a wrongly typed argument cannot wipe it; the constructor records no error ahead of the expression; the encapsulation loop of C02 (every wrap is left+v+right, no 'already wrapped' shortcut) is checked here too. ComparisonOperator.Context answers one non-empty constant on every path, so a built-in operator is never refused for its number (an out-of-range one is stored and then reported by Valid). getStringer looks the String method up on the value as given. Keyword/Operator/Expression answer the stored component on every path of an initialised instance, whatever else is on record. R-ENCDUP (from C18): an encapsulation entry is refused only for an exact duplicate. Shared option helpers, checked in every property whose statement depends on an option: the bit helpers are exact |= / &^= / test (R-MASK), the option constants are distinct single bits (R-FLAGS), and the tests every option read goes through - (*nodeConfig).valid and getState - depend on the kind word and the raw bit only (R-TT). Shared conversion helpers, checked in every property that recognises nested Stacks/Conditions: derefPtr follows pointers to the end, only while non-nil, type and value together (R-COVER), isStackKind judges by the pointer-flattened type (R-TT), and the converters write no package-level state (R-CONV: no memo keyed by type). isNilPtr says yes only where Kind()==Ptr and IsNil() (a nil map/slice/func used as an operator is a usable value). R-ENCDUP: once a duplicate was found no further comparison is made (a later one could overwrite the verdict). The operator text is one of six pairwise different, non-empty constants (String() evaluated over the six constants). Cond calls newCondition with its own three arguments on every path (a nil operator does not make the constructor drop keyword and expression).",
 		NotDecided: "the exact rendered text (spacing, encapsulated expression rendering) - a string-valued functional property (C02's undecided part); behaviour of user Operator/Stringer implementations",
 		Run: func(c *Ctx) {
 			c.optionHelpers()
@@ -418,7 +423,7 @@ var properties = map[string]PropSpec{
 	},
 	"C14": {
 		Level: "other",
-		Explanation: "R-DISPATCH: for each of the 12 closure slots' dispatchers (Valid, String, IsEqual, Unmarshal, Marshal, Less, Evaluate on both types; push) the return paths are enumerated: the installed closure is invoked exactly when the slot is non-nil, the built-in implementation does not run on that path, the dispatcher returns the closure's own result (for Stack validity: true exactly when the closure returns nil), and with a nil slot the built-in code runs; an exit taken before the slot is looked at may only refuse (a non-nil error, false, the empty string) unless the receiver is uninitialised - a positive verdict never bypasses an installed closure. R-SETTER: each exported setter stores its argument (nil included, so removal restores the default) into exactly its own slot. R-APPEND/R-POLICY: in the policy-gated append the policy is consulted only while isFull()==false (same memory epoch), once per loop iteration, the appended value is the approved one, a rejection calls setErr with the policy's own error and cannot reach another policy call or append; on every return path that follows a rejection setErr(policy error) has been executed (no condition can suppress the report), and the per-value loop is left only past the last value, on a full stack or on a rejection. R-BASIC: a BASIC stack never stores a presentation policy and records a non-nil error; rendering is gated by canString (table checked: initialised, valid per the validity closure, kind neither 0 nor BASIC). The closure a dispatcher invokes is the receiver's own on every path (its value mentions the receiver and no other parameter: an operand's or element's policy is never borrowed). Inside an iteration of the policy loop only the fullness test can bypass the policy call: no other filter drops a value without the policy having seen it. The closure is handed the dispatcher's own receiver and parameters as given - no argument is a computed value (an unwrapped or filtered list). Every setErr/SetErr stores or forwards the error parameter itself, so Err() reports the policy's own error value (errors.Is / == hold). R-TT on Stack.Valid: nil exactly when the handle is set and the worker - hence the closure - approves; a recorded error does not overrule an approving closure. R-SETTER: each exported closure setter stores on every path of an initialised, writable receiver - whatever the argument (nil removes) and whatever else the instance's state (a rejecting validity closure cannot make itself irremovable). R-BACKCAP/R-CAPEQ: 'while room remains' is judged against the configured capacity. R-SEQ: the exported Push stores nothing itself, so no value bypasses the policy-gated worker.",
+		Explanation: "R-DISPATCH: for each of the 12 closure slots' dispatchers (Valid, String, IsEqual, Unmarshal, Marshal, Less, Evaluate on both types; push) the return paths are enumerated: the installed closure is invoked exactly when the slot is non-nil, the built-in implementation does not run on that path, the dispatcher returns the closure's own result (for Stack validity: true exactly when the closure returns nil), and with a nil slot the built-in code runs; an exit taken before the slot is looked at may only refuse (a non-nil error, false, the empty string) unless the receiver is uninitialised - a positive verdict never bypasses an installed closure. R-SETTER: each exported setter stores its argument (nil included, so removal restores the default) into exactly its own slot. R-APPEND/R-POLICY: in the policy-gated append the policy is consulted only while isFull()==false (same memory epoch), once per loop iteration, the appended value is the approved one, a rejection calls setErr with the policy's own error and cannot reach another policy call or append; on every return path that follows a rejection setErr(policy error) has been executed (no condition can suppress the report), and the per-value loop is left only past the last value, on a full stack or on a rejection. R-BASIC: a BASIC stack never stores a presentation policy and records a non-nil error; rendering is gated by canString (table checked: initialised, valid per the validity closure, kind neither 0 nor BASIC). The closure a dispatcher invokes is the receiver's own on every path (its value mentions the receiver and no other parameter: an operand's or element's policy is never borrowed). Inside an iteration of the policy loop only the fullness test can bypass the policy call: no other filter drops a value without the policy having seen it. The closure is handed the dispatcher's own receiver and parameters as given - no argument is a computed value (an unwrapped or filtered list). Every setErr/SetErr stores or forwards the error parameter itself, so Err() reports the policy's own error value (errors.Is / == hold). R-TT on Stack.Valid: nil exactly when the handle is set and the worker - hence the closure - approves; a recorded error does not overrule an approving closure. R-SETTER: each exported closure setter stores on every path of an initialised, writable receiver - whatever the argument (nil removes) and whatever else the instance's state (a rejecting validity closure cannot make itself irremovable). R-BACKCAP/R-CAPEQ: 'while room remains' is judged against the configured capacity. R-SEQ: the exported Push stores nothing itself, so no value bypasses the policy-gated worker. R-LOCK pairing and re-entrancy over the whole package: reporting a rejection (setErr) happens under push's lock, and nothing on that path locks the stack again.",
 		NotDecided: "what the closures themselves do; 'once per offered value' is decided structurally (one call site inside the per-value loop), not as a count over executions",
 		Run: func(c *Ctx) {
 			c.ruleDispatch()
@@ -428,6 +433,8 @@ var properties = map[string]PropSpec{
 			c.ruleBackingCap()      // "while room remains" is judged against the configured capacity
 			c.ruleCapEq()
 			c.seqWrappers()         // the exported Push stores nothing itself: every value goes through the policy-gated worker
+			c.ruleLockPairing("R-LOCK", c.p.Funcs) // reporting a rejection (setErr) happens under push's lock: nothing on that path locks again
+			c.ruleLockReentry("R-LOCK", c.p.Funcs)
 			c.ttStackValidWrapper() // Stack.Valid: an error exactly when the worker (hence the closure) says no
 			c.rep.floor("R-DISPATCH", 12)
 			c.rep.floor("R-SETTER", 12)
@@ -437,7 +444,7 @@ var properties = map[string]PropSpec{
 	},
 	"C13": {
 		Level: "other",
-		Explanation: "Both clauses of C13 are finite predicates and are decided exactly. R-TT enumerates the return paths of canPushNester (accept = not(isStack and no-nesting)), of Stack.CanNest / Condition.CanNest (initialised and bit clear) and of the Condition-side filter (a Stack is refused exactly under no-nesting; the previous expression is kept because the store is gated, R-CONDSTORE). R-APPEND proves that in the per-value loop the append is gated by the verdict on that very value and by isFull()==false with no write in between. R-APPEND also proves that every offered value gets its turn: the per-value loop visits x[0], x[1], ... up to len(x) and is left only past the last value, on a full stack, or (policy loop) on a rejection - a value refused by the no-nesting test does not end the batch. R-OPTW proves that switching the option writes only the option word, so elements already present are untouched; R-MASK/R-FLAGS prove that the switch itself is exactly |= / &^= of one distinct bit (a redundant 'off' stays off). R-TT: Stack.IsNesting answers its scan's verdict for every initialised receiver whatever the option says (no cached or option-dependent shortcut), and condition.isNesting is exactly isStackKind of the expression. R-CONDSTORE: setExpression writes nothing but the expression (a refused Stack leaves no trace that would make later arguments be refused). The worker push appends nothing itself: every value goes through one of the two per-value loops, hence through the no-nesting test. R-COVER: derefPtr flattens type and value in step in one loop, so a typed nil pointer to a Stack is not judged to be a Stack. Shared option helpers, checked in every property whose statement depends on an option: the bit helpers are exact |= / &^= / test (R-MASK), the option constants are distinct single bits (R-FLAGS), and the tests every option read goes through - (*nodeConfig).valid and getState - depend on the kind word and the raw bit only (R-TT). Shared conversion helpers, checked in every property that recognises nested Stacks/Conditions: derefPtr follows pointers to the end, only while non-nil, type and value together (R-COVER), isStackKind judges by the pointer-flattened type (R-TT), and the converters write no package-level state (R-CONV: no memo keyed by type). R-SEQ: the exported Push stores nothing into the stack itself - every value goes through the worker and its no-nesting test. R-SWITCH: SetNoNesting and its deprecated alias drive the nnest bit with the caller's own argument on every path.",
+		Explanation: "Both clauses of C13 are finite predicates and are decided exactly. R-TT enumerates the return paths of canPushNester (accept = not(isStack and no-nesting)), of Stack.CanNest / Condition.CanNest (initialised and bit clear) and of the Condition-side filter (a Stack is refused exactly under no-nesting; the previous expression is kept because the store is gated, R-CONDSTORE). R-APPEND proves that in the per-value loop the append is gated by the verdict on that very value and by isFull()==false with no write in between. R-APPEND also proves that every offered value gets its turn: the per-value loop visits x[0], x[1], ... up to len(x) and is left only past the last value, on a full stack, or (policy loop) on a rejection - a value refused by the no-nesting test does not end the batch. R-OPTW proves that switching the option writes only the option word, so elements already present are untouched; R-MASK/R-FLAGS prove that the switch itself is exactly |= / &^= of one distinct bit (a redundant 'off' stays off). R-TT: Stack.IsNesting answers its scan's verdict for every initialised receiver whatever the option says (no cached or option-dependent shortcut), and condition.isNesting is exactly isStackKind of the expression. R-CONDSTORE: setExpression writes nothing but the expression (a refused Stack leaves no trace that would make later arguments be refused). The worker push appends nothing itself: every value goes through one of the two per-value loops, hence through the no-nesting test. R-COVER: derefPtr flattens type and value in step in one loop, so a typed nil pointer to a Stack is not judged to be a Stack. Shared option helpers, checked in every property whose statement depends on an option: the bit helpers are exact |= / &^= / test (R-MASK), the option constants are distinct single bits (R-FLAGS), and the tests every option read goes through - (*nodeConfig).valid and getState - depend on the kind word and the raw bit only (R-TT). Shared conversion helpers, checked in every property that recognises nested Stacks/Conditions: derefPtr follows pointers to the end, only while non-nil, type and value together (R-COVER), isStackKind judges by the pointer-flattened type (R-TT), and the converters write no package-level state (R-CONV: no memo keyed by type). R-SEQ: the exported Push stores nothing into the stack itself - every value goes through the worker and its no-nesting test. R-SWITCH: SetNoNesting and its deprecated alias drive the nnest bit with the caller's own argument on every path. R-TT on setState: set / clear / toggle are obeyed whatever the bit's current value; only the read-only flag blocks a switch (an option that is on can be switched off).",
 		NotDecided: "IsNesting's scan over all elements is checked only through the converter rules of C12 (not claimed here); behaviour under a custom push policy (documented to ignore the option)",
 		Run: func(c *Ctx) {
 			c.optionHelpers()
@@ -456,6 +463,7 @@ var properties = map[string]PropSpec{
 			c.ruleDerefLoop() // "is a Stack" is judged on type and value flattened in step (a typed nil pointer is not a Stack)
 			c.seqWrappers()      // the exported Push stores nothing itself: every value goes through the worker, hence through the test
 			c.ruleSwitchTable()  // the switch and its deprecated alias drive the no-nesting bit with the caller's argument
+			c.ttSetState()       // ... and setState obeys set / clear / toggle whatever the bit's current value (only read-only blocks it)
 			c.rep.floor("R-MASK", 11)
 			c.rep.floor("R-FLAGS", 22)
 			c.rep.floor("R-TT", 5)
@@ -466,7 +474,7 @@ var properties = map[string]PropSpec{
 	},
 	"C18": {
 		Level: "other",
-		Explanation: "R-FLAGS: the option constants are pairwise distinct single bits. R-MASK: shift/unshift/toggle/positive and their wrappers are exactly |=, &^=, test-and-branch on (receiver, parameter) - switching one option cannot alter another. R-TT: setState (both types) is compared row by row with the prescribed tri-state table (set on true, clear on false, toggle on no argument, nothing when uninitialised or read-only unless the flag is the read-only flag itself); the getters IsParen/IsPadded/IsReadOnly/CanNest have the stated polarity on both types. R-SWITCH: every public switch drives the option the documentation names, forwards its argument unchanged, and Stack/Condition agree. R-OPTW (in C13) / write sets: a switch writes only the option word. R-LATCH: FIFO mode is stored only after reading it as false with no write in between. R-PAIR: each setter/getter pair (ID, category, delimiter, auxiliary, error, keyword, operator, expression) goes through one field. R-KINDGUARD: the delimiter is stored only on LIST stacks, the symbol only on non-LIST stacks (the kind itself is immutable after construction). R-ENCDUP: an encapsulation entry is appended only when the duplicate scan found nothing (found-flag or early-return idiom), and the scan compares every character of the new entry (its length is taken from the call sites) with every existing pair, its loops being left only past their bound or on a duplicate. R-LOGLEVEL: the level set is merged with exactly |= / &^= of the resolved level; the shortcuts exist and are guarded (set: level exactly 0 -> none, and only when the argument did resolve to a level; level exactly 65535 -> all; unset: level exactly 65535 -> none); a raw integer is converted to a level only inside 0..65535; the two name tables are mutually inverse. R-PAIR for the auxiliary map: a map other than the caller's is stored only where no argument was given or it is known nil (an empty non-nil map is kept as given). R-LOGLEVEL: the merge can be bypassed only by the loop test, the shortcuts and the resolution flag. R-STR VERBATIM (from C02): symbol and delimiter reach the rendering exactly as stored, the symbol is never case-folded. R-TT on getState: the getters' source is the raw bit. A raw integer is converted to a level exactly when it lies in 0..65535 (every value in the range is accepted, none outside). R-PURE (the effect analysis of C11): a getter computes its answer from the current settings and writes nothing - no memo that a later change could fail to invalidate. The symbol is stored on every path of a non-LIST stack (an explicit empty string clears it). LogLevels(): the listing loop of logLevels.String is unrolled over its constants and must test all 16 single bits. R-SWITCH: every return path of a public switch has executed setState (or its alias), except for an uninitialised receiver - no state of the instance makes a switch a silent no-op. R-TT on (*nodeConfig).valid: the verdict every option test consults depends on the kind word only. Shared option helpers, checked in every property whose statement depends on an option: the bit helpers are exact |= / &^= / test (R-MASK), the option constants are distinct single bits (R-FLAGS), and the tests every option read goes through - (*nodeConfig).valid and getState - depend on the kind word and the raw bit only (R-TT). R-PAIR: newLogSystem returns a fresh allocation on every path (log levels are per instance); ID and category reach the record as given - the caller's own parameter or, for the magic ID words, the generated value - and the record stores exactly what it is handed.",
+		Explanation: "R-FLAGS: the option constants are pairwise distinct single bits. R-MASK: shift/unshift/toggle/positive and their wrappers are exactly |=, &^=, test-and-branch on (receiver, parameter) - switching one option cannot alter another. R-TT: setState (both types) is compared row by row with the prescribed tri-state table (set on true, clear on false, toggle on no argument, nothing when uninitialised or read-only unless the flag is the read-only flag itself); the getters IsParen/IsPadded/IsReadOnly/CanNest have the stated polarity on both types. R-SWITCH: every public switch drives the option the documentation names, forwards its argument unchanged, and Stack/Condition agree. R-OPTW (in C13) / write sets: a switch writes only the option word. R-LATCH: FIFO mode is stored only after reading it as false with no write in between. R-PAIR: each setter/getter pair (ID, category, delimiter, auxiliary, error, keyword, operator, expression) goes through one field. R-KINDGUARD: the delimiter is stored only on LIST stacks, the symbol only on non-LIST stacks (the kind itself is immutable after construction). R-ENCDUP: an encapsulation entry is appended only when the duplicate scan found nothing (found-flag or early-return idiom), and the scan compares every character of the new entry (its length is taken from the call sites) with every existing pair, its loops being left only past their bound or on a duplicate. R-LOGLEVEL: the level set is merged with exactly |= / &^= of the resolved level; the shortcuts exist and are guarded (set: level exactly 0 -> none, and only when the argument did resolve to a level; level exactly 65535 -> all; unset: level exactly 65535 -> none); a raw integer is converted to a level only inside 0..65535; the two name tables are mutually inverse. R-PAIR for the auxiliary map: a map other than the caller's is stored only where no argument was given or it is known nil (an empty non-nil map is kept as given). R-LOGLEVEL: the merge can be bypassed only by the loop test, the shortcuts and the resolution flag. R-STR VERBATIM (from C02): symbol and delimiter reach the rendering exactly as stored, the symbol is never case-folded. R-TT on getState: the getters' source is the raw bit. A raw integer is converted to a level exactly when it lies in 0..65535 (every value in the range is accepted, none outside). R-PURE (the effect analysis of C11): a getter computes its answer from the current settings and writes nothing - no memo that a later change could fail to invalidate. The symbol is stored on every path of a non-LIST stack (an explicit empty string clears it). LogLevels(): the listing loop of logLevels.String is unrolled over its constants and must test all 16 single bits. R-SWITCH: every return path of a public switch has executed setState (or its alias), except for an uninitialised receiver - no state of the instance makes a switch a silent no-op. R-TT on (*nodeConfig).valid: the verdict every option test consults depends on the kind word only. Shared option helpers, checked in every property whose statement depends on an option: the bit helpers are exact |= / &^= / test (R-MASK), the option constants are distinct single bits (R-FLAGS), and the tests every option read goes through - (*nodeConfig).valid and getState - depend on the kind word and the raw bit only (R-TT). R-PAIR: newLogSystem returns a fresh allocation on every path (log levels are per instance); ID and category reach the record as given - the caller's own parameter or, for the magic ID words, the generated value - and the record stores exactly what it is handed. R-KINDGUARD: a symbol given in pieces is collected by 'accumulator + piece' only.",
 		NotDecided: "'reflected in String()' for symbol and encapsulation (string-valued, C02's undecided part); the _random/_addr ID keywords; polarity of lead-once / fold / padding inside the rendering loop",
 		Run: func(c *Ctx) {
 			c.optionHelpers()
@@ -488,6 +496,7 @@ var properties = map[string]PropSpec{
 			c.ruleLogLevelsListing() // the getter's text lists every active level (all 16 bits are tested)
 			c.ruleFreshLogSystem()   // log levels are per instance: every constructor call allocates its own log system
 			c.ruleIDVerbatim()       // ID and category are stored as given (no folding), the magic ID words aside
+			c.ruleSymbolPieces()     // a symbol given in pieces is stored whole
 			c.ttCfgValid()           // the option test depends on the kind word only
 			c.ruleStrVerbatimSettings() // symbol and delimiter reach the rendering exactly as stored
 			c.ttGetState()
@@ -506,7 +515,7 @@ var properties = map[string]PropSpec{
 	},
 	"C17": {
 		Level: "other",
-		Explanation: "R-NIL: census of every nil-panic-capable instruction of the package (pointer loads/stores, field addresses, interface invokes, calls of function values, nil-map writes, external pointer-receiver calls); each is discharged by a non-nil fact on every path (forward path-sensitive DNF facts with relational callee summaries), by provenance, by the proved object invariants (R-INV: condition.cfg, nodeConfig.log, package loggers), or becomes a (conditional) precondition that is checked at every call site; exported entry points may have no precondition (A-RECV: the pointer receiver of the four pointer-receiver methods is assumed non-nil). R-REFL/R-CANIF: the same for every panicking reflect.Value call (validity, kind, CanInterface), and a method is looked up on a Value only where it tested non-zero/non-nil (no method of a nil pointer is bound). R-HANDLE: only Free/Marshal/Init can write a handle; Free stores nil and only when initialised and with the read-only flag tested false on that path; Marshal seats only a Stack IsInit() just confirmed. R-ZERO: each exported value-receiver method is re-analysed under the assumption that the embedded pointer is nil; every return path must yield the zero answer (documented exceptions: Valid/IsEqual an error, IsZero/IsEmpty/IsPadded true, Stack.ID/Kind their constants). R-ELEMINDEP: nothing reachable from Reset branches on an element being nil, and Reset writes only content and lock bookkeeping. Free is complete: wherever it returns with the read-only flag tested false the handle holds nil (no other condition keeps the instance alive). R-IFACECMP: no comparison of two non-nil interface values outside the confirmed sites. R-NILPTR: a method of the package's own interfaces (Operator, Interface) is invoked on a user-supplied value only where an in-package nil-pointer predicate said no about it, or on the operator stored in a Condition: a nil *Stack / *Condition / *ComparisonOperator among the values never has a method called through it. R-LOCK pairing and re-entrancy over the whole package: Reset (like every method) neither takes a lock twice nor leaves one held, so it returns also on a mutex-enabled stack. Shared option helpers, checked in every property whose statement depends on an option: the bit helpers are exact |= / &^= / test (R-MASK), the option constants are distinct single bits (R-FLAGS), and the tests every option read goes through - (*nodeConfig).valid and getState - depend on the kind word and the raw bit only (R-TT).",
+		Explanation: "R-NIL: census of every nil-panic-capable instruction of the package (pointer loads/stores, field addresses, interface invokes, calls of function values, nil-map writes, external pointer-receiver calls); each is discharged by a non-nil fact on every path (forward path-sensitive DNF facts with relational callee summaries), by provenance, by the proved object invariants (R-INV: condition.cfg, nodeConfig.log, package loggers), or becomes a (conditional) precondition that is checked at every call site; exported entry points may have no precondition (A-RECV: the pointer receiver of the four pointer-receiver methods is assumed non-nil). R-REFL/R-CANIF: the same for every panicking reflect.Value call (validity, kind, CanInterface), and a method is looked up on a Value only where it tested non-zero/non-nil (no method of a nil pointer is bound). R-HANDLE: only Free/Marshal/Init can write a handle; Free stores nil and only when initialised and with the read-only flag tested false on that path; Marshal seats only a Stack IsInit() just confirmed. R-ZERO: each exported value-receiver method is re-analysed under the assumption that the embedded pointer is nil; every return path must yield the zero answer (documented exceptions: Valid/IsEqual an error, IsZero/IsEmpty/IsPadded true, Stack.ID/Kind their constants). R-ELEMINDEP: nothing reachable from Reset branches on an element being nil, and Reset writes only content and lock bookkeeping. Free is complete: wherever it returns with the read-only flag tested false the handle holds nil (no other condition keeps the instance alive). R-IFACECMP: no comparison of two non-nil interface values outside the confirmed sites. R-NILPTR: a method of the package's own interfaces (Operator, Interface) is invoked on a user-supplied value only where an in-package nil-pointer predicate said no about it, or on the operator stored in a Condition: a nil *Stack / *Condition / *ComparisonOperator among the values never has a method called through it. R-LOCK pairing and re-entrancy over the whole package: Reset (like every method) neither takes a lock twice nor leaves one held, so it returns also on a mutex-enabled stack. Shared option helpers, checked in every property whose statement depends on an option: the bit helpers are exact |= / &^= / test (R-MASK), the option constants are distinct single bits (R-FLAGS), and the tests every option read goes through - (*nodeConfig).valid and getState - depend on the kind word and the raw bit only (R-TT). R-ZERO: Condition.Addr answers the empty string on a zero Condition; only Stack.Addr (documented \"0x0\") is an exception.",
 		NotDecided: "panics inside user closures / String() methods and the Go runtime; index-range panics are C08's R-BND (not part of this check)",
 		Run: func(c *Ctx) {
 			c.optionHelpers()
